@@ -40,7 +40,7 @@ LEVEL_TEXT = (
     "of the case, fields in the order the type declares them - and lowering, applying the arguments, reducing and converting "
     "(compile_data_expr for a datum, try_as_data for a redeemer or a list element) yields den too, at every sufficient fuel "
     "(C01_datum_fragment, C01_datum_exact, C01_redeemer_exact, C01_field_order_immaterial; R { extra: q + 1, counter: 7, label: 0xab } "
-    "meets every hypothesis and denotes Constr 0 [7, 0xab, 42]); (10) a field of an input's datum and records with a spread: x.f lowers to Property(IntoDatum(query of x), i) with i the position of f in the type definition, and after the input stage reduction yields the i-th field of the datum of the UTxO assigned to x; every declared field a constructor with a spread leaves out is read from the spread by position (C01_input_field_value, lower_input_field, lower_record_with_spread, C01_spread_field_value); (11) a map literal over data expressions denotes - for [[.]] and for lower / apply / reduce / convert alike - the association list of its entries in the order written (C01_map_literal, C01_map_literal_semantics); an optional output is kept exactly when it carries something (C01_optional_output_kept_iff). Per generated program (two layouts of the same tree) the real parse, analyze, lower, "
+    "meets every hypothesis and denotes Constr 0 [7, 0xab, 42]); (10) a field of an input's datum and records with a spread: x.f lowers to Property(IntoDatum(query of x), i) with i the position of f in the type definition, and after the input stage reduction yields the i-th field of the datum of the UTxO assigned to x; every declared field a constructor with a spread leaves out is read from the spread by position (C01_input_field_value, lower_input_field, lower_record_with_spread, C01_spread_field_value); (11) a map literal over data expressions denotes - for [[.]] and for lower / apply / reduce / convert alike - the association list of its entries in the order written (C01_map_literal, C01_map_literal_semantics); an optional output is kept exactly when it carries something (C01_optional_output_kept_iff); (12) the compile stage on its own: the body's collateral and reference inputs are exactly the references of the blocks that hold them, every UTxO of a block's set is listed whatever it holds and nothing else is (C01_collateral_exact, C01_collateral_member, C01_collateral_only, C01_reference_inputs_exact, C01_reference_member; the spent inputs: C04_body_inputs_exact) - decided on the real compile() per reduced template by clauses denotes:inputs / denotes:reference-inputs / denotes:collateral over the compile generator (random templates and the utxo-contents family: every UTxO-holding block x what its UTxOs hold). Per generated program (two layouts of the same tree) the real parse, analyze, lower, "
     "resolve_tx (apply, reduce, input selection, compile) is run; the lowered IR must equal the model's, and the "
     "transaction bytes, decoded by the Lean Conway reader, must hold exactly the inputs, outputs (address, lovelace, "
     "native assets, inline datum, in source order), mint, validity interval, signers, reference inputs, metadata "
@@ -55,7 +55,7 @@ LEVEL_NOTE = (
     "shadowing between scopes is not exercised."
 )
 PROP = "C01"
-TARGETS = ["Tx3Proofs.C01", "Tx3Proofs.C01Assets", "Tx3Proofs.C01Lovelace", "Tx3Proofs.C01MultiAsset", "Tx3Proofs.C01Template", "Tx3Proofs.C01Spec", "Tx3Proofs.C01Change", "Tx3Proofs.C01Index", "Tx3Proofs.C01Datum", "Tx3Proofs.C01Field", "Tx3Proofs.C01Optional", "Tx3Proofs.C01Map"]
+TARGETS = ["Tx3Proofs.C01", "Tx3Proofs.C01Assets", "Tx3Proofs.C01Lovelace", "Tx3Proofs.C01MultiAsset", "Tx3Proofs.C01Template", "Tx3Proofs.C01Spec", "Tx3Proofs.C01Change", "Tx3Proofs.C01Index", "Tx3Proofs.C01Datum", "Tx3Proofs.C01Field", "Tx3Proofs.C01Optional", "Tx3Proofs.C01Map", "Tx3Proofs.C01Blocks"]
 THEOREMS = ["Tx3.Lang.eval_int", "Tx3.Lang.lower_int", "Tx3.Lang.C01_int_fragment", "Tx3.Lang.C01_sub_chain",
             "Tx3.Lang.C01_sub_chain_distinct",
             "Tx3.assetsOfChildren_amt", "Tx3.reread_canonical", "Tx3.C01_assets_add", "Tx3.C01_assets_neg",
@@ -71,7 +71,8 @@ THEOREMS = ["Tx3.Lang.eval_int", "Tx3.Lang.lower_int", "Tx3.Lang.C01_int_fragmen
             "Tx3.Lang.C01_field_order_immaterial", "Tx3.Lang.C01_datum_fragment",
     "Tx3.C01_input_field_value", "Tx3.Lang.lower_input_field", "Tx3.Lang.lower_record_with_spread", "Tx3.Lang.C01_spread_field_value",
     "Tx3.C01_optional_output_kept_iff", "Tx3.C01_optional_output_error_kept",
-    "Tx3.Lang.C01_map_literal", "Tx3.Lang.C01_map_literal_semantics"]
+    "Tx3.Lang.C01_map_literal", "Tx3.Lang.C01_map_literal_semantics",
+    "Tx3.C01_collateral_exact", "Tx3.C01_collateral_member", "Tx3.C01_collateral_only", "Tx3.C01_reference_inputs_exact", "Tx3.C01_reference_member"]
 RULE = (
     "cases = generated programs over the core fragment: env (Int, Bytes), 2-3 parties, a policy, an asset, a record "
     "and a variant type; one transaction with 1-3 positive Int parameters, optionally an unconstrained Int, a Bytes "
